@@ -22,6 +22,7 @@ def save_db(tag, alias='default'):
 
 def restore_db(tag, alias='default'):
     from django.db import connections
+    dbrig.clear_stuck_transaction(alias)
     connections[alias].close()
     shutil.copyfile(db_path(alias) + '.' + tag, db_path(alias))
     connections[alias].ensure_connection()
